@@ -170,7 +170,10 @@ fn check_word_in(word: &[usize], gens: &[Gen], kind: &str, r: &mut Report) {
             let e = if i == j { 1.0 } else { 0.0 };
             // rounding of the f32 inverse is relative to the magnitude of the cancelling terms (large translations)
             // backward-stable bound: entries of the f32 inverse are accurate relative to their row's magnitude
-            let s: f64 = 4.0 * (0..4).map(|k| a[i][k].abs()).fold(0.0, f64::max) * (0..4).map(|k| b[k][j].abs()).fold(0.0, f64::max);
+            // (the linear 3x3 block on its own: both factors are affine, so the translation column never enters these sums and a
+            // large translation does not loosen them)
+            let kk = if i < 3 && j < 3 { 3 } else { 4 };
+            let s: f64 = 4.0 * (0..kk).map(|k| a[i][k].abs()).fold(0.0, f64::max) * (0..kk).map(|k| b[k][j].abs()).fold(0.0, f64::max);
             let tol = tol.max(16.0 * f32::EPSILON as f64 * cond.max(1.0) * s);
             r.margin("inverse", (prod[i][j] - e).abs(), tol);
             if !((prod[i][j] - e).abs() <= tol) {
@@ -394,8 +397,11 @@ fn check_perspective(i: u64, r: &mut Report) {
 }
 
 fn check_ortho(i: u64, r: &mut Report) {
-    let boxes = [([-1.0f32, -1.0, -1.0], [1.0f32, 1.0, 1.0]), ([-20.0, 0.0, 0.01], [100.0, 50.0, 100.0]), ([0.0, 0.0, 1.0], [1e-2, 10.0, 1000.0]), ([-5.0, -7.0, -3.0], [-1.0, -2.0, -0.5])];
-    let (lo, hi) = if i < 4 { boxes[i as usize] } else {
+    let boxes = [([-1.0f32, -1.0, -1.0], [1.0f32, 1.0, 1.0]), ([-20.0, 0.0, 0.01], [100.0, 50.0, 100.0]), ([0.0, 0.0, 1.0], [1e-2, 10.0, 1000.0]), ([-5.0, -7.0, -3.0], [-1.0, -2.0, -0.5]),
+        // a scene measured in micrometres, a depth slab 1.5e-6 thick, a box at the scale of 1e-12, and one of 1e9
+        ([-1e-6, -1e-6, 0.0], [1e-6, 1e-6, 2e-6]), ([-1.0, -1.0, 0.0], [1.0, 1.0, 1.5e-6]), ([-3e-12, 1e-12, 1e-12], [-1e-12, 2e-12, 4e-12]), ([-1e9, -2e9, 1e8], [3e9, 1e9, 5e9])];
+    const NB: u64 = 8;
+    let (lo, hi) = if i < NB { boxes[i as usize] } else { let i = i - (NB - 4);
         // thorough tier: every combination of 6 x-extents, 6 y-extents, 6 depth ranges (thin, wide, far from the origin, negative)
         let ext = [(-1.0f32, 1.0f32), (0.37, 0.41), (-1000.0, 2000.0), (-7.3, -7.1), (1e-3, 2e-3), (5.0, 5.5)];
         let dep = [(0.1f32, 100.0f32), (1.0, 1.001), (-50.0, 50.0), (1e-3, 1.0), (250.0, 1000.0), (-3.0, -1.0)];
@@ -784,10 +790,36 @@ fn check_fp_look_at_scale(i: u64, r: &mut Report) {
     } else { r.h("fp-look-at-scale:rigidity-only"); }
 }
 
+/// Small steps are steps: a displacement of any magnitude moves the camera by that displacement along its axes - one step of
+/// 1e-3 .. 1e-30 from the origin, and four thousand steps of 5e-7 (a slow dolly), which add up.
+fn check_fp_translate_small(i: u64, r: &mut Report) {
+    r.eval();
+    let case = || obj! {"kind" => "fp-small", "i" => i};
+    let az = [0.0f32, 30.0, 135.0, -90.0][(i % 4) as usize];
+    let mag = [1e-3f32, 1e-5, 9e-7, 5e-7, 1e-9, 1e-20, 1e-30][(i / 4 % 7) as usize];
+    let dir = [[1.0f32, 0.0, 0.0], [0.0, 1.0, 0.0], [0.0, 0.0, 1.0], [0.6, -0.8, 0.5]][(i / 28 % 4) as usize];
+    let steps = if i / 112 == 1 { 4000 } else { 1 };
+    let mut fp = FirstPerson::new();
+    fp.rotate_to(degs(az), degs(0.0));
+    let a = (az as f64).to_radians();
+    let (right, fwd) = ([a.sin(), 0.0, -a.cos()], [a.cos(), 0.0, a.sin()]);
+    for _ in 0..steps { fp.translate(vec3(dir[0] * mag, dir[1] * mag, dir[2] * mag)); }
+    let moved = [fp.pos.x() as f64, fp.pos.y() as f64, fp.pos.z() as f64];
+    let d = dir.map(|c| c as f64 * mag as f64 * steps as f64);
+    let want = [0, 1, 2].map(|k| d[0] * right[k] + d[1] * [0.0, 1.0, 0.0][k] + d[2] * fwd[k]);
+    let len = (d[0] * d[0] + d[1] * d[1] + d[2] * d[2]).sqrt();
+    let tol = if steps == 1 { 1e-5 * len } else { 1e-3 * len };
+    if (0..3).any(|k| !((moved[k] - want[k]).abs() <= tol)) {
+        r.violation(format!("fp-translate|small|az={az}|step={mag:e}x{steps}|dir={dir:?}"), format!("{steps} translate step(s) of {mag:e} x {dir:?} from the origin at azimuth {az}: the camera moved by {moved:?}, expected {want:?}"), case());
+        return;
+    }
+    r.nontrivial();
+}
+
 fn run_proj(cfg: &Cfg) -> ! {
     let mut rep = Report::new();
     rep.merge(par_range(cfg, if cfg.quick() { 80 } else { 80 + 1200 }, check_perspective));
-    rep.merge(par_range(cfg, if cfg.quick() { 4 } else { 4 + 216 }, check_ortho));
+    rep.merge(par_range(cfg, if cfg.quick() { 8 } else { 8 + 216 }, check_ortho));
     let mut rects = vec![];
     for l in 0..=6u32 { for rr in l + 1..=7 { for t in 0..=6u32 { for b in t + 1..=7 { rects.push((l, t, rr, b)); } } } }
     rects.extend([(20, 10, 620, 470), (0, 0, 101, 75), (3, 4, 324, 205), (0, 0, 1, 1), (10, 10, 11, 4000)]);
@@ -809,6 +841,7 @@ fn run_proj(cfg: &Cfg) -> ! {
     }
     rep.merge(par_range(cfg, 54 * 29 * 8 * 6, check_first_person));
     rep.merge(par_range(cfg, 7 * 14 * 2 * 2, check_fp_look_at_scale));
+    rep.merge(par_range(cfg, 4 * 7 * 4 * 2, check_fp_translate_small));
     let _: Angle = degs(0.0);
     let _: Option<Point3> = None;
     let _ = <FirstPerson as Mode>::world_to_view;
@@ -839,6 +872,7 @@ fn main() {
                 "camera-twice" => check_camera_viewport_twice(i, r),
                 "fp" => check_first_person(i, r),
                 "fp-scale" => check_fp_look_at_scale(i, r),
+                "fp-small" => check_fp_translate_small(i, r),
                 k => machinery_error(&format!("unknown replay kind {k}")),
             }
         });
